@@ -92,28 +92,31 @@ CHECKS = {
         'assumptions': T_ASSUME,
     },
     'C03': {
-        'units': lambda t: [u_atoms(t, 0), u_atoms(t, 1), u_conv(t), u_core(t), u_limits(t), plain_unit('u_c03g', 'units/c03g.cpp', t), plain_unit('u_c10', 'units/c10.cpp', t)],
+        'units': lambda t: [u_atoms(t, 0), u_atoms(t, 1), u_conv(t), u_core(t), u_limits(t), plain_unit('u_c03g', 'units/c03g.cpp', t), plain_unit('u_c10', 'units/c10.cpp', t),
+                            plain_unit('u_c07buf', 'buf/c07_buffer.cpp', t)] + [dict(u_pos(t, e, k, 0), shards=8) for (e, k) in EOLS if e in ('cr', 'crlf', 'cr_crlf')],
         'rule': 'every library atom (ascii convenience rules, integer rules, raw_string, predicates, utf8::any, eol family, istring, bytes, everything) as root and '
                 'one level below each classical operator, all inputs over a per-family alphabet (length <=4..6) plus boundary numerals, on terminator-less '
                 'buffers with a PROT_NONE page directly after the input (pass 1) and directly before it (pass 2), eager and lazy; nested windows (rematch, minus) '
                 'from the convenience space; oracle: no guard-page fault, no peek_char(offset)/bump(count) reaching the end of the current window '
                 '(TAO_PEGTL_VERIF hook), cursor <= end at every rule entry/exit; byte-limited windows (limit_bytes at every offset) from the limits space; shipped grammars '
                 '(http incl. chunked bodies with extreme chunk sizes, json, uri, iri): all token strings of length <=4 (thorough 5) over per-grammar alphabets, guard page after / before, '
-                'eager / lazy; code-unit rules (utf8/16/32, uintN) with all truncations on guard-paged buffers (units of C10)',
+                'eager / lazy; code-unit rules (utf8/16/32, uintN) with all truncations on guard-paged buffers (units of C10); the eol family of the policies cr, crlf, cr_crlf '
+                '(position space of C06, whose nested rematch windows end inside a larger buffer); the memory-safety invariants of the buffer_input state-space search (C07 unit)',
         'assumptions': T_ASSUME + ['reads through std::memcmp on current() are only seen by the guard page, i.e. for windows that end at the physical end of the buffer'],
     },
     'C18': {
         'units': lambda t: [u_limits(t)],
         'rule': 'limit_bytes<n> (n in 1,2,3) and check_bytes<1> attached by rule id to greedy, look-ahead, failing and raising rules that start at every offset '
                 '(tables of <=3 rules over the classical operators, must, until, bytes<2>, everything, string), all inputs over {a,b} of length <=4 (thorough 5) on '
-                'guard-paged buffers; limit_depth<N> (N in 1,2) on every rule of recursive tables; oracle: reference evaluates the guarded rule inside the window '
+                'guard-paged buffers, with default and non-default initial byte/line/column counters; limit_depth<N> (N in 1,2) on every rule of recursive tables; oracle: reference evaluates the guarded rule inside the window '
                 '[start, start+n) / with a depth counter; after every outcome current_depth()==0 and end() is the original end; no peek/bump beyond the window',
         'assumptions': T_ASSUME,
     },
     'C13': {
         'units': lambda t: [u_scopes(t)],
         'rule': 'tables of <=4 rules over the classical operators, state<S,...>, enable, disable with change_state / change_states / change_action / '
-                'change_action_and_state(s) / change_control / enable_action / disable_action attached by rule id (3 attachment families); all inputs over {a,b} '
+                'change_action_and_state(s) / change_control / enable_action / disable_action attached by rule id (7 attachment families, every change_action* variant also over a rule whose entry in the '
+                'family switched to is itself a switch), states constructed from the input and default-constructed ones; all inputs over {a,b} '
                 'of length <=2 (thorough 3); apply_mode action and nothing; oracle: exact equality of the state constructor/success/destructor log (instance ids, '
                 'cursor, outer state), of the surviving action log (family, span, state instance seen) and of the control seen by every rule attempt with a '
                 'lexical scoping model',
@@ -138,7 +141,9 @@ CHECKS = {
                 'variants (all, even ids, odd ids, fold_one, discard_empty, remove_content+fold_one, none); oracle: tree returned iff the parse succeeds; '
                 'flattened (type, begin, end, depth) sequence equals the surviving derivation of the reference with the transformers applied as documented; '
                 'node positions follow the prefix formula; compile-time leaf optimisation: static chains of depth 1..12 with every selection of <=2 chain rules under an alternative that '
-                'matches the chain and then fails',
+                'matches the chain and then fails; selector projection: for every operator of the static generator with children from {S,T} inside sor< seq< L, eof >, star< sor< S, T > > >, 15 inputs, '
+                'all 8 selections of {L,S,T}: tree(selection) equals the projection of tree(everything selected); the user control handed to parse_tree (fixed-arity unwind, must_if table) '
+                'sees a balanced protocol for every selected rule',
         'assumptions': T_ASSUME + ['node::subs_t of table rules lists all rules, so the compile-time leaf optimisation is exercised separately on static grammars'],
     },
     'C14': {
@@ -173,7 +178,8 @@ CHECKS = {
                 '(b) differential runs: every table program of <=2 rules (classical operators, must, eol, bytes<2>, require<2>) under three discard-bearing wrappers, all inputs over {a,b,LF} of '
                 'length <=4 (thorough 5), through eager/lazy memory_input, string_input, argv_input, read_input, mmap_input, file_input, istream_input, cstream_input and buffer_input with Chunk '
                 '1/2/64 and every read-size pattern with <=2 (thorough 3) short reads; oracle: result, consumed bytes, action trace with positions and error identical to the eager memory_input run, '
-                'or std::overflow_error when (and only when) the buffer maximum is smaller than the input',
+                'or std::overflow_error when (and only when) the buffer maximum is smaller than the input (std::terminate = the error could not reach the caller); a byte-class round with NUL bytes, '
+                'complete and truncated 2-4 byte UTF-8 sequences and istring at every offset relative to the buffer boundaries',
         'assumptions': T_ASSUME + ['files of page-boundary sizes (0, 1, page-1, page, page+1, 2 pages, 2 pages+1) are exercised with one grammar (seq<star<one<a>>,eof>) through read/mmap/file_input'],
         'technique': 'explicit-state model checking of buffer_input (BFS over operation x reader-answer histories on the real object) plus exhaustive differential exploration of input classes',
     },
@@ -227,12 +233,13 @@ CHECKS = {
         'technique': 'exhaustive enumeration of inputs x positions x configurations on the real code against an independent line splitter',
     },
     'C06': {
-        'units': lambda t: [dict(u, shards=8) for u in pos_units(t)],
+        'units': lambda t: [dict(u, shards=8) for u in pos_units(t)] + [plain_unit('u_c03g', 'units/c03g.cpp', t)],
         'rule': 'tables (<=3 rules) over seq sor star plus opt at not_at until(1,2) and the newline-capable atoms any one<LF> one<CR> not_one range<0,127> '
                 'string<CR,LF> eol eolf bytes<2> everything utf8::any bof bol eof; all inputs over {a, LF, CR, 0xC3, 0xA9} of length <=4 (thorough 5); '
                 '10 input types {lf,cr,crlf,lf_crlf,cr_crlf} x {eager,lazy}; initial counters (0,1,1) and (7,3,5); both rewind modes; oracle: in.position() '
                 'at every Control<Rule>::match entry/exit, every action input and every parse_error equals the prefix formula; eager and lazy are compared '
-                'through the common formula',
+                'through the common formula; one class rule per way of choosing bump() vs bump_in_this_line() (packs with the eol character first/last, even/odd packs, string, istring, '
+                'utf8:: and uint8:: forms, masked comparisons); final position of the shipped grammars (http chunk payloads containing line ends, json, uri) on all token strings',
         'assumptions': T_ASSUME + ['UTF-16/32 and multi-byte binary rules excluded as documented by the library'],
     },
     'C02': {
